@@ -20,6 +20,16 @@ import (
 //     wraps below zero or a strings.Repeat with a negative count.
 // (b) Every index / slice / Repeat site is enumerated with the hazards of an
 //     out-of-range span and the path conditions that dominate it.
+//
+// The execution is over *values*, not over the text of the renderer: a local
+// that holds (a part of) the receiver's span is that part; an integer local is
+// the expression it was computed from; a call of a function of the module is
+// interpreted (predicate / accessor helpers: parameters bound to the argument
+// values, the returned expression evaluated — both polarities of a condition
+// follow from the three-valued result), and a helper that contains index /
+// slice / Repeat sites is walked with the caller's path facts. Sites keep the
+// key of the renderer they are reached from and the text of the expression in
+// terms of the renderer's receiver, wherever the statement happens to live.
 
 func init() {
 	register(&Rule{ID: "R-render-total", Floor: 5, Run: ruleRenderTotal,
@@ -34,37 +44,119 @@ type rdIv struct {
 
 const rdInf = int64(1) << 60
 
-type rdAtom struct {
-	e     ast.Expr
-	taken bool
+type rdKind int
+
+const (
+	rdOther rdKind = iota
+	rdRecv         // the renderer's receiver (or a struct inside it that is not the span)
+	rdSpan         // the receiver's span
+	rdLoc          // Start / End of the receiver's span (or, with zero set, a Location{} literal)
+	rdInt          // an integer
+	rdBool         // a condition value
+)
+
+// rdSub is one subtraction inside an expression (operands in receiver terms).
+type rdSub struct {
+	x, y   string
+	yConst bool
+	yVal   int64
+}
+
+// rdV is the value of an expression: its text in terms of the renderer's
+// receiver (conversions, parentheses, local aliases and helper parameters
+// resolved), what it denotes, and its value under the whole-file assumption.
+type rdV struct {
+	k      rdKind
+	txt    string
+	rooted bool // rdInt: a Line/Column/Index field of the receiver's span
+	zero   bool // rdLoc: a Location{} literal
+	isLit  bool // integer constant
+	iv     rdIv
+	tri    int // rdBool under the whole-file assumption: 1 true, 0 false, -1 unknown
+	subs   []rdSub
+	fields []string // span fields occurring inside, in evaluation order
+	lenLo  int64    // lower bound of len(value)
+	clamp0 bool     // max(0, …): never below zero
+	lin    bool     // txt is linBase ± linOff (constant offsets folded)
+	linTxt string
+	linOff int64
+	linSub []rdSub  // subtractions inside linBase
+	capTxt []string // min(…, X): the other operands
+	tuple  []*rdV   // results of a call of a helper with several results
 }
 
 type rdState struct {
-	atoms []rdAtom
-	wOK   bool                   // path feasible under the whole-file assumption
-	lens  map[types.Object]int64 // lower bound of len(local)
+	atoms []string
+	wOK   bool // path feasible under the whole-file assumption
+	env   map[types.Object]*rdV
+}
+
+func rdClone(s *rdState) *rdState {
+	n := &rdState{atoms: append([]string(nil), s.atoms...), wOK: s.wOK, env: make(map[types.Object]*rdV, len(s.env))}
+	for k, v := range s.env {
+		n.env[k] = v
+	}
+	return n
+}
+
+// rdFrame is the function whose syntax is being evaluated.
+type rdFrame struct {
+	info  *types.Info
+	fd    *ast.FuncDecl
+	chain string // call sites leading here (site identity)
+	depth int
 }
 
 type rdSite struct {
-	node   ast.Node
-	what   string
-	kind   string // index | slice | repeat
-	expr   ast.Expr
-	paths  int
-	dom    map[string]bool // dominating atoms (normalised), nil until first visit
-	wReach []string        // witnesses of whole-file paths reaching the site with a bad value
-	wAny   bool            // reached at all under W
+	node      ast.Node
+	what      string
+	kind      string // index | slice | repeat
+	hasExpr   bool
+	val       *rdV   // the operand at the first visit
+	container string // indexed value
+	paths     int
+	dom       map[string]bool // dominating atoms (normalised), nil until first visit
+	wReach    []string        // witnesses of whole-file paths reaching the site with a bad value
+	wAny      bool            // reached at all under W
+}
+
+type rdDecl struct {
+	fd   *ast.FuncDecl
+	info *types.Info
 }
 
 type rdCtx struct {
-	c     *Ctx
-	info  *types.Info
-	recv  *types.Var
-	spanT *types.Named
-	locT  *types.Named
-	fd    *ast.FuncDecl
-	sites map[ast.Node]*rdSite
-	order []*rdSite
+	c        *Ctx
+	info     *types.Info
+	recv     *types.Var
+	spanT    *types.Named
+	locT     *types.Named
+	fd       *ast.FuncDecl
+	sites    map[string]*rdSite
+	order    []*rdSite
+	decls    map[*types.Func]rdDecl
+	siteMemo map[*types.Func]int // 1 has sites (transitively), 2 none, 3 in progress
+	active   map[*types.Func]bool
+	overflow bool
+	unsupp   int
+}
+
+var rdDeclCache = map[*Ctx]map[*types.Func]rdDecl{}
+
+func rdDecls(c *Ctx) map[*types.Func]rdDecl {
+	if m := rdDeclCache[c]; m != nil {
+		return m
+	}
+	m := map[*types.Func]rdDecl{}
+	for _, p := range c.All {
+		for _, fd := range AllFuncDecls(p) {
+			if fn, ok := p.TypesInfo.Defs[fd.Name].(*types.Func); ok {
+				m[fn] = rdDecl{fd, p.TypesInfo}
+			}
+		}
+	}
+	rdDeclCache[c] = m
+	return m
 }
 
 func ruleRenderTotal(c *Ctx) []Obligation {
@@ -78,7 +170,8 @@ func ruleRenderTotal(c *Ctx) []Obligation {
 	for _, a := range []struct{ pkg, recv string }{{"homescript/errors", "Error"}, {"homescript/diagnostic", "Diagnostic"}} {
 		fd := c.MustFunc(a.pkg, a.recv, "Display")
 		p := c.Pkg(a.pkg)
-		rc := &rdCtx{c: c, info: p.TypesInfo, spanT: spanT, locT: locT, fd: fd, sites: map[ast.Node]*rdSite{}}
+		rc := &rdCtx{c: c, info: p.TypesInfo, spanT: spanT, locT: locT, fd: fd, sites: map[string]*rdSite{},
+			decls: rdDecls(c), siteMemo: map[*types.Func]int{}, active: map[*types.Func]bool{}}
 		if len(fd.Recv.List[0].Names) > 0 {
 			rc.recv, _ = p.TypesInfo.Defs[fd.Recv.List[0].Names[0]].(*types.Var)
 		}
@@ -90,44 +183,17 @@ func ruleRenderTotal(c *Ctx) []Obligation {
 	return obs
 }
 
-// spanField: e is <recv>.….{Start,End}.{Line,Column,Index}
-func (rc *rdCtx) spanField(e ast.Expr) (string, bool) {
-	s, ok := ast.Unparen(e).(*ast.SelectorExpr)
-	if !ok {
-		return "", false
+// ---- values ----
+
+func rdIsInteger(t types.Type) bool {
+	if t == nil {
+		return false
 	}
-	t := rc.info.Types[s.X].Type
-	if t == nil || !types.Identical(t, rc.locT) {
-		return "", false
-	}
-	inner, ok := ast.Unparen(s.X).(*ast.SelectorExpr)
-	if !ok {
-		return "", false
-	}
-	if t := rc.info.Types[inner.X].Type; t == nil || !types.Identical(t, rc.spanT) {
-		return "", false
-	}
-	if !rc.rootedAtRecv(inner.X) {
-		return "", false
-	}
-	return inner.Sel.Name + "." + s.Sel.Name, true
+	b, ok := t.Underlying().(*types.Basic)
+	return ok && b.Info()&types.IsInteger != 0
 }
 
-func (rc *rdCtx) rootedAtRecv(e ast.Expr) bool {
-	for {
-		switch x := ast.Unparen(e).(type) {
-		case *ast.SelectorExpr:
-			e = x.X
-		case *ast.Ident:
-			return rc.info.Uses[x] == rc.recv
-		default:
-			return false
-		}
-	}
-}
-
-func (rc *rdCtx) isUnsigned(e ast.Expr) bool {
-	t := rc.info.Types[e].Type
+func rdIsUnsigned(t types.Type) bool {
 	if t == nil {
 		return false
 	}
@@ -135,63 +201,23 @@ func (rc *rdCtx) isUnsigned(e ast.Expr) bool {
 	return ok && b.Info()&types.IsUnsigned != 0
 }
 
-// evalW evaluates an integer expression under the whole-file assumption.
-func (rc *rdCtx) evalW(st *rdState, e ast.Expr) rdIv {
-	e = ast.Unparen(e)
-	if tv := rc.info.Types[e]; tv.Value != nil && tv.Value.Kind() == constant.Int {
-		if n, ok := constant.Int64Val(tv.Value); ok {
-			return rdIv{lo: n, hi: n, known: true}
-		}
+func rdIsStruct(t types.Type) bool {
+	if t == nil {
+		return false
 	}
-	if _, ok := rc.spanField(e); ok {
-		return rdIv{known: true}
+	if p, ok := t.Underlying().(*types.Pointer); ok {
+		t = p.Elem()
 	}
-	switch x := e.(type) {
-	case *ast.CallExpr:
-		if tv, ok := rc.info.Types[x.Fun]; ok && tv.IsType() && len(x.Args) == 1 {
-			v := rc.evalW(st, x.Args[0])
-			// conversion of a wrapped unsigned to int: stays out of range either way
-			return v
-		}
-		if id, ok := x.Fun.(*ast.Ident); ok && id.Name == "len" && len(x.Args) == 1 {
-			lo := int64(0)
-			if aid, ok := ast.Unparen(x.Args[0]).(*ast.Ident); ok {
-				if l, ok := st.lens[rc.info.Uses[aid]]; ok {
-					lo = l
-				}
-			}
-			return rdIv{lo: lo, hi: rdInf, known: true}
-		}
-	case *ast.BinaryExpr:
-		if x.Op == token.ADD || x.Op == token.SUB {
-			a, b := rc.evalW(st, x.X), rc.evalW(st, x.Y)
-			if !a.known || !b.known {
-				return rdIv{}
-			}
-			var r rdIv
-			r.known = true
-			r.wrapped = a.wrapped || b.wrapped
-			if x.Op == token.ADD {
-				r.lo, r.hi = a.lo+b.lo, rdAdd(a.hi, b.hi)
-			} else {
-				r.lo = a.lo - rdCap(b.hi)
-				r.hi = rdCap(a.hi) - b.lo
-				if a.hi >= rdInf {
-					r.hi = rdInf
-				}
-			}
-			if rc.isUnsigned(x) && r.hi < 0 {
-				r.wrapped = true
-			}
-			return r
-		}
-	}
-	return rdIv{}
+	_, ok := t.Underlying().(*types.Struct)
+	return ok
 }
 
 func rdCap(v int64) int64 {
 	if v >= rdInf {
 		return rdInf
+	}
+	if v <= -rdInf {
+		return -rdInf
 	}
 	return v
 }
@@ -200,29 +226,704 @@ func rdAdd(a, b int64) int64 {
 	if a >= rdInf || b >= rdInf {
 		return rdInf
 	}
-	return a + b
+	return rdCap(a + b)
 }
 
-// condW: value of an atomic condition under the whole-file assumption:
-// 1 true, 0 false, -1 unknown.
-func (rc *rdCtx) condW(st *rdState, e ast.Expr) int {
-	be, ok := ast.Unparen(e).(*ast.BinaryExpr)
+func rdCat[T any](a []T, b ...[]T) []T {
+	out := append([]T(nil), a...)
+	for _, x := range b {
+		out = append(out, x...)
+	}
+	return out
+}
+
+func (rc *rdCtx) builtin(fr *rdFrame, call *ast.CallExpr) string {
+	if id, ok := ast.Unparen(call.Fun).(*ast.Ident); ok {
+		if b, ok := fr.info.Uses[id].(*types.Builtin); ok {
+			return b.Name()
+		}
+	}
+	return ""
+}
+
+// eval computes the value of an expression of the function in fr on the path st.
+func (rc *rdCtx) eval(fr *rdFrame, st *rdState, e ast.Expr) *rdV {
+	e = ast.Unparen(e)
+	tv := fr.info.Types[e]
+	if tv.Value != nil {
+		switch tv.Value.Kind() {
+		case constant.Int:
+			if n, ok := constant.Int64Val(tv.Value); ok {
+				return &rdV{k: rdInt, txt: tv.Value.ExactString(), isLit: true, iv: rdIv{lo: n, hi: n, known: true}}
+			}
+		case constant.Bool:
+			t := 0
+			if constant.BoolVal(tv.Value) {
+				t = 1
+			}
+			return &rdV{k: rdBool, txt: exprStr(e), tri: t}
+		}
+	}
+	switch x := e.(type) {
+	case *ast.Ident:
+		obj := fr.info.Uses[x]
+		if obj == nil {
+			obj = fr.info.Defs[x]
+		}
+		if obj != nil {
+			if v := st.env[obj]; v != nil {
+				return v
+			}
+			if obj == rc.recv {
+				return &rdV{k: rdRecv, txt: x.Name}
+			}
+		}
+		v := &rdV{txt: x.Name, tri: -1}
+		if rdIsInteger(tv.Type) {
+			v.k = rdInt
+		}
+		return v
+	case *ast.SelectorExpr:
+		sel := fr.info.Selections[x]
+		if sel == nil || sel.Kind() != types.FieldVal {
+			return &rdV{txt: exprStr(x), tri: -1}
+		}
+		base := rc.eval(fr, st, x.X)
+		v := &rdV{txt: base.txt + "." + x.Sel.Name, tri: -1}
+		switch {
+		case base.k == rdRecv && types.Identical(tv.Type, rc.spanT):
+			v.k = rdSpan
+		case base.k == rdRecv && rdIsStruct(tv.Type):
+			v.k = rdRecv
+		case base.k == rdSpan && types.Identical(tv.Type, rc.locT):
+			v.k = rdLoc
+		case base.k == rdLoc && !base.zero && rdIsInteger(tv.Type):
+			v.k, v.rooted, v.iv, v.fields = rdInt, true, rdIv{known: true}, []string{v.txt}
+		case base.k == rdLoc && base.zero && rdIsInteger(tv.Type):
+			v.k, v.iv = rdInt, rdIv{known: true}
+		case rdIsInteger(tv.Type):
+			v.k = rdInt
+		}
+		return v
+	case *ast.StarExpr:
+		return rc.eval(fr, st, x.X)
+	case *ast.UnaryExpr:
+		if x.Op == token.AND {
+			return rc.eval(fr, st, x.X)
+		}
+		if x.Op == token.NOT {
+			return &rdV{k: rdBool, txt: "!" + rc.eval(fr, st, x.X).txt, tri: rc.condW(fr, st, x)}
+		}
+		a := rc.eval(fr, st, x.X)
+		v := &rdV{txt: x.Op.String() + a.txt, subs: a.subs, fields: a.fields, tri: -1}
+		if rdIsInteger(tv.Type) {
+			v.k = rdInt
+			if x.Op == token.SUB && a.iv.known && !a.iv.wrapped && !rdIsUnsigned(tv.Type) {
+				v.iv = rdIv{lo: rdCap(-a.iv.hi), hi: rdCap(-a.iv.lo), known: true}
+			}
+		}
+		return v
+	case *ast.CompositeLit:
+		if len(x.Elts) == 0 && tv.Type != nil && types.Identical(tv.Type, rc.locT) {
+			return &rdV{k: rdLoc, zero: true, txt: exprStr(x), tri: -1}
+		}
+		return &rdV{txt: exprStr(x), tri: -1}
+	case *ast.IndexExpr:
+		a, b := rc.eval(fr, st, x.X), rc.eval(fr, st, x.Index)
+		v := &rdV{txt: a.txt + "[" + b.txt + "]", subs: rdCat(a.subs, b.subs), fields: rdCat(a.fields, b.fields), tri: -1}
+		if rdIsInteger(tv.Type) {
+			v.k = rdInt
+		}
+		return v
+	case *ast.BinaryExpr:
+		switch x.Op {
+		case token.LAND, token.LOR, token.EQL, token.NEQ, token.LSS, token.LEQ, token.GTR, token.GEQ:
+			a, b := rc.eval(fr, st, x.X), rc.eval(fr, st, x.Y)
+			return &rdV{k: rdBool, txt: a.txt + x.Op.String() + b.txt, subs: rdCat(a.subs, b.subs), fields: rdCat(a.fields, b.fields), tri: rc.condW(fr, st, x)}
+		}
+		a, b := rc.eval(fr, st, x.X), rc.eval(fr, st, x.Y)
+		v := &rdV{txt: a.txt + x.Op.String() + b.txt, tri: -1}
+		if (x.Op == token.ADD || x.Op == token.SUB) && b.isLit && !a.isLit && rdIsInteger(tv.Type) {
+			// constant offsets fold: F-1-1 is F-2 wherever the two steps are written
+			v.lin, v.linTxt, v.linOff, v.linSub = true, a.txt, 0, a.subs
+			if a.lin {
+				v.linTxt, v.linOff, v.linSub = a.linTxt, a.linOff, a.linSub
+			}
+			if x.Op == token.ADD {
+				v.linOff += b.iv.lo
+			} else {
+				v.linOff -= b.iv.lo
+			}
+			switch {
+			case v.linOff == 0:
+				v.txt = v.linTxt
+			case v.linOff > 0:
+				v.txt = fmt.Sprintf("%s+%d", v.linTxt, v.linOff)
+			default:
+				v.txt = fmt.Sprintf("%s-%d", v.linTxt, -v.linOff)
+				v.subs = append(v.subs, rdSub{x: v.linTxt, y: fmt.Sprint(-v.linOff), yConst: true, yVal: -v.linOff})
+			}
+			v.subs = rdCat(v.subs, v.linSub)
+		} else {
+			if x.Op == token.SUB {
+				v.subs = append(v.subs, rdSub{x: a.txt, y: b.txt, yConst: b.isLit, yVal: b.iv.lo})
+			}
+			v.subs = rdCat(v.subs, a.subs, b.subs)
+		}
+		v.fields = rdCat(a.fields, b.fields)
+		if rdIsInteger(tv.Type) {
+			v.k = rdInt
+		}
+		if (x.Op == token.ADD || x.Op == token.SUB) && a.iv.known && b.iv.known {
+			r := rdIv{known: true, wrapped: a.iv.wrapped || b.iv.wrapped}
+			if x.Op == token.ADD {
+				r.lo, r.hi = rdCap(a.iv.lo+b.iv.lo), rdAdd(a.iv.hi, b.iv.hi)
+			} else {
+				r.lo = rdCap(a.iv.lo - rdCap(b.iv.hi))
+				r.hi = rdCap(rdCap(a.iv.hi) - b.iv.lo)
+				if a.iv.hi >= rdInf {
+					r.hi = rdInf
+				}
+			}
+			if rdIsUnsigned(tv.Type) && r.hi < 0 {
+				r.wrapped = true
+			}
+			v.iv = r
+		}
+		return v
+	case *ast.CallExpr:
+		return rc.evalCall(fr, st, x, tv.Type)
+	}
+	v := &rdV{txt: exprStr(e), tri: -1}
+	if rdIsInteger(tv.Type) {
+		v.k = rdInt
+	}
+	return v
+}
+
+func (rc *rdCtx) evalCall(fr *rdFrame, st *rdState, x *ast.CallExpr, t types.Type) *rdV {
+	// conversion
+	if ftv, ok := fr.info.Types[x.Fun]; ok && ftv.IsType() && len(x.Args) == 1 {
+		a := rc.eval(fr, st, x.Args[0])
+		if a.k == rdInt && rdIsInteger(t) {
+			// a wrapped unsigned converted to int stays out of range either way
+			return a
+		}
+		if a.k == rdInt || a.k == rdOther {
+			c := *a
+			if !rdIsInteger(t) {
+				c.k, c.iv = rdOther, rdIv{}
+			}
+			return &c
+		}
+		return a
+	}
+	var args []*rdV
+	var atxt []string
+	var subs []rdSub
+	var fields []string
+	for _, a := range x.Args {
+		v := rc.eval(fr, st, a)
+		args = append(args, v)
+		atxt = append(atxt, v.txt)
+		subs = append(subs, v.subs...)
+		fields = append(fields, v.fields...)
+	}
+	v := &rdV{txt: rc.funText(fr, st, x.Fun) + "(" + strings.Join(atxt, ",") + ")", subs: subs, fields: fields, tri: -1}
+	if rdIsInteger(t) {
+		v.k = rdInt
+	}
+	switch rc.builtin(fr, x) {
+	case "len":
+		if len(args) == 1 {
+			v.iv = rdIv{lo: args[0].lenLo, hi: rdInf, known: true}
+		}
+		return v
+	case "max", "min":
+		isMax := rc.builtin(fr, x) == "max"
+		if len(args) == 0 || !rdIsInteger(t) {
+			return v
+		}
+		r := rdIv{known: true}
+		first := true
+		anyKnown, allKnown, anyClean := false, true, false
+		for _, a := range args {
+			if !a.iv.known {
+				allKnown = false
+				continue
+			}
+			anyKnown = true
+			if !a.iv.wrapped {
+				anyClean = true
+			}
+			if first {
+				r.lo, r.hi, first = a.iv.lo, a.iv.hi, false
+				continue
+			}
+			if isMax {
+				r.lo, r.hi = max(r.lo, a.iv.lo), max(r.hi, a.iv.hi)
+			} else {
+				r.lo, r.hi = min(r.lo, a.iv.lo), min(r.hi, a.iv.hi)
+			}
+		}
+		if !anyKnown {
+			return v
+		}
+		for _, a := range args {
+			if a.iv.known && a.iv.wrapped {
+				// a wrapped unsigned is a huge value: it wins a max, loses a min against a clean operand
+				if isMax || !anyClean {
+					r.wrapped = true
+				}
+			}
+		}
+		if !allKnown {
+			if isMax {
+				r.hi = rdInf
+			} else {
+				r.lo = -rdInf
+			}
+		}
+		v.iv = r
+		if isMax && !rdIsUnsigned(t) {
+			for _, a := range args {
+				if a.isLit && a.iv.lo >= 0 {
+					v.clamp0 = true
+				}
+			}
+			if v.clamp0 && v.iv.lo < 0 {
+				v.iv.lo = 0
+			}
+		}
+		if !isMax {
+			nonNeg := !rdIsUnsigned(t)
+			for _, a := range args {
+				v.capTxt = append(v.capTxt, a.txt)
+				if !(a.clamp0 || len(a.fields) == 0 && a.iv.known && !a.iv.wrapped && a.iv.lo >= 0) {
+					nonNeg = false
+				}
+			}
+			v.clamp0 = nonNeg
+		}
+		return v
+	}
+	fn := CalleeOf(fr.info, x)
+	if fn != nil && fn.Pkg() != nil && fn.Pkg().Path() == "strings" && fn.Name() == "Split" {
+		v.lenLo = 1 // strings.Split with a non-empty separator returns >= 1 element
+		return v
+	}
+	if r := rc.callW(fr, st, x); r != nil {
+		if r.txt == "" {
+			// several returns: the value is their join, the text stays the call
+			c := *r
+			c.txt, c.subs, c.fields = v.txt, v.subs, v.fields
+			return &c
+		}
+		return r
+	}
+	return v
+}
+
+// funText renders the callee of a call with the receiver operand resolved.
+func (rc *rdCtx) funText(fr *rdFrame, st *rdState, f ast.Expr) string {
+	if s, ok := ast.Unparen(f).(*ast.SelectorExpr); ok {
+		if sel := fr.info.Selections[s]; sel != nil {
+			return rc.eval(fr, st, s.X).txt + "." + s.Sel.Name
+		}
+	}
+	return exprStr(f)
+}
+
+func (rc *rdCtx) norm(fr *rdFrame, st *rdState, e ast.Expr) string { return rc.eval(fr, st, e).txt }
+
+// ---- interpretation of helper functions ----
+
+// bindCall binds the receiver and the parameters of the callee to the values
+// of the operands of call (evaluated in fr). ok=false: not a function of the
+// module, too deep, recursive, or an operand list that does not map 1:1.
+func (rc *rdCtx) bindCall(fr *rdFrame, st *rdState, call *ast.CallExpr, env map[types.Object]*rdV) (*types.Func, rdDecl, bool) {
+	fn := CalleeOf(fr.info, call)
+	if fn == nil {
+		return nil, rdDecl{}, false
+	}
+	d, ok := rc.decls[fn]
+	if !ok || fr.depth >= 4 || rc.active[fn] {
+		return nil, rdDecl{}, false
+	}
+	sig := fn.Type().(*types.Signature)
+	if sig.Variadic() {
+		return nil, rdDecl{}, false
+	}
+	var names []*ast.Ident
+	for _, f := range d.fd.Type.Params.List {
+		if len(f.Names) == 0 {
+			names = append(names, nil)
+		}
+		names = append(names, f.Names...)
+	}
+	if len(names) != len(call.Args) {
+		return nil, rdDecl{}, false
+	}
+	vals := make([]*rdV, len(call.Args))
+	for i, a := range call.Args {
+		vals[i] = rc.eval(fr, st, a)
+	}
+	if sig.Recv() != nil {
+		s, ok := ast.Unparen(call.Fun).(*ast.SelectorExpr)
+		if !ok {
+			return nil, rdDecl{}, false
+		}
+		if d.fd.Recv != nil && len(d.fd.Recv.List) > 0 && len(d.fd.Recv.List[0].Names) > 0 {
+			if o := d.info.Defs[d.fd.Recv.List[0].Names[0]]; o != nil {
+				env[o] = rc.eval(fr, st, s.X)
+			}
+		}
+	}
+	for i, n := range names {
+		if n == nil || n.Name == "_" {
+			continue
+		}
+		if o := d.info.Defs[n]; o != nil {
+			env[o] = vals[i]
+		}
+	}
+	return fn, d, true
+}
+
+// callW interprets a call of a function of the module whose body is made of
+// local definitions, if statements and returns of one value. nil: not such a
+// function. A result with empty txt is the join of several returns.
+func (rc *rdCtx) callW(fr *rdFrame, st *rdState, call *ast.CallExpr) *rdV {
+	if r := rc.callAny(fr, st, call); r != nil && r.tuple == nil {
+		return r
+	}
+	return nil
+}
+
+// callAny: as callW; a helper with several results yields a value with tuple set.
+func (rc *rdCtx) callAny(fr *rdFrame, st *rdState, call *ast.CallExpr) *rdV {
+	st2 := &rdState{wOK: st.wOK, env: make(map[types.Object]*rdV, len(st.env)+4)}
+	for k, v := range st.env {
+		st2.env[k] = v
+	}
+	fn, d, ok := rc.bindCall(fr, st, call, st2.env)
+	if !ok || fn.Type().(*types.Signature).Results().Len() < 1 {
+		return nil
+	}
+	rc.active[fn] = true
+	defer delete(rc.active, fn)
+	fr2 := &rdFrame{info: d.info, fd: d.fd, chain: fr.chain, depth: fr.depth + 1}
+	res, done := rc.interp(fr2, st2, d.fd.Body.List)
+	if done != 1 || res == nil {
+		return nil
+	}
+	return res
+}
+
+func rdJoin(a, b *rdV) *rdV {
+	if a == nil {
+		return b
+	}
+	if b == nil {
+		return a
+	}
+	if a.tuple != nil || b.tuple != nil {
+		if len(a.tuple) != len(b.tuple) {
+			return &rdV{tri: -1}
+		}
+		r := &rdV{tri: -1}
+		for i := range a.tuple {
+			r.tuple = append(r.tuple, rdJoin(a.tuple[i], b.tuple[i]))
+		}
+		return r
+	}
+	if a.txt != "" && a.txt == b.txt && a.k == b.k && a.tri == b.tri && a.iv == b.iv {
+		return a
+	}
+	r := &rdV{tri: -1}
+	if a.k == b.k {
+		r.k = a.k
+	}
+	if r.k == rdSpan || r.k == rdLoc || r.k == rdRecv {
+		r.k = rdOther // different parts of the receiver
+	}
+	if a.tri == b.tri {
+		r.tri = a.tri
+	}
+	if a.iv.known && b.iv.known {
+		r.iv = rdIv{lo: min(a.iv.lo, b.iv.lo), hi: max(a.iv.hi, b.iv.hi), known: true, wrapped: a.iv.wrapped || b.iv.wrapped}
+	}
+	r.lenLo = min(a.lenLo, b.lenLo)
+	return r
+}
+
+func rdAnon(v *rdV) *rdV {
+	if v == nil {
+		return nil
+	}
+	r := &rdV{k: v.k, tri: v.tri, iv: v.iv, lenLo: v.lenLo}
+	for _, t := range v.tuple {
+		r.tuple = append(r.tuple, rdAnon(t))
+	}
+	return r
+}
+
+// interp: (value returned, 1 = every path returned / 0 = none did / -1 = the
+// body has a shape that is not interpreted). A value that depends on a
+// decision taken inside the body has no text of its own (rdAnon).
+func (rc *rdCtx) interp(fr *rdFrame, st *rdState, list []ast.Stmt) (*rdV, int) {
+	var pending *rdV // join of the values returned earlier under an undecided condition
+	branched := false
+	fin := func(v *rdV) (*rdV, int) {
+		if pending != nil {
+			return rdJoin(pending, rdAnon(v)), 1
+		}
+		if branched {
+			return rdAnon(v), 1
+		}
+		return v, 1
+	}
+	for _, s := range list {
+		switch x := s.(type) {
+		case *ast.ReturnStmt:
+			if len(x.Results) == 0 {
+				return nil, -1
+			}
+			if len(x.Results) > 1 {
+				t := &rdV{tri: -1}
+				for _, e := range x.Results {
+					t.tuple = append(t.tuple, rc.eval(fr, st, e))
+				}
+				return fin(t)
+			}
+			return fin(rc.eval(fr, st, x.Results[0]))
+		case *ast.AssignStmt, *ast.DeclStmt, *ast.IncDecStmt:
+			rc.bindStmt(fr, st, s)
+		case *ast.EmptyStmt:
+		case *ast.BlockStmt:
+			v, done := rc.interp(fr, st, x.List)
+			if done == -1 {
+				return nil, -1
+			}
+			if done == 1 {
+				return fin(v)
+			}
+		case *ast.IfStmt:
+			if x.Init != nil {
+				rc.bindStmt(fr, st, x.Init)
+			}
+			branched = true
+			c := rc.condW(fr, st, x.Cond)
+			var els []ast.Stmt
+			if x.Else != nil {
+				els = []ast.Stmt{x.Else}
+			}
+			switch c {
+			case 1, 0:
+				br := x.Body.List
+				if c == 0 {
+					br = els
+				}
+				v, done := rc.interp(fr, st, br)
+				if done == -1 {
+					return nil, -1
+				}
+				if done == 1 {
+					return fin(v)
+				}
+			default:
+				s1, s2 := rdClone(st), rdClone(st)
+				v1, d1 := rc.interp(fr, s1, x.Body.List)
+				v2, d2 := rc.interp(fr, s2, els)
+				if d1 == -1 || d2 == -1 {
+					return nil, -1
+				}
+				switch {
+				case d1 == 1 && d2 == 1:
+					return fin(rdJoin(rdAnon(v1), rdAnon(v2)))
+				case d1 == 1:
+					pending = rdJoin(pending, rdAnon(v1))
+					st.env = s2.env
+				case d2 == 1:
+					pending = rdJoin(pending, rdAnon(v2))
+					st.env = s1.env
+				default:
+					// keep what both branches agree on
+					for k, v := range s1.env {
+						if s2.env[k] != v {
+							delete(s1.env, k)
+						}
+					}
+					st.env = s1.env
+				}
+			}
+		default:
+			return nil, -1
+		}
+	}
+	return pending, 0
+}
+
+// bindStmt records what a simple statement defines.
+func (rc *rdCtx) bindStmt(fr *rdFrame, st *rdState, s ast.Stmt) {
+	objOf := func(e ast.Expr) types.Object {
+		id, ok := ast.Unparen(e).(*ast.Ident)
+		if !ok || id.Name == "_" {
+			return nil
+		}
+		if o := fr.info.Defs[id]; o != nil {
+			return o
+		}
+		return fr.info.Uses[id]
+	}
+	bind := func(obj types.Object, name string, v *rdV) {
+		if obj == nil {
+			return
+		}
+		if v != nil && v.txt == "" {
+			c := *v
+			c.txt = name
+			v = &c
+		}
+		switch {
+		case v == nil:
+			delete(st.env, obj)
+		case v.k == rdRecv || v.k == rdSpan || v.k == rdLoc || v.k == rdBool:
+			st.env[obj] = v
+		case v.k == rdInt && rdIsInteger(obj.Type()):
+			st.env[obj] = v
+		case v.lenLo > 0:
+			st.env[obj] = &rdV{txt: name, lenLo: v.lenLo, tri: -1}
+		default:
+			delete(st.env, obj)
+		}
+	}
+	switch x := s.(type) {
+	case *ast.AssignStmt:
+		if len(x.Lhs) == len(x.Rhs) && (x.Tok == token.DEFINE || x.Tok == token.ASSIGN) {
+			vals := make([]*rdV, len(x.Rhs))
+			for i, r := range x.Rhs {
+				vals[i] = rc.eval(fr, st, r)
+			}
+			for i, l := range x.Lhs {
+				if id, ok := ast.Unparen(l).(*ast.Ident); ok {
+					bind(objOf(l), id.Name, vals[i])
+				}
+			}
+			return
+		}
+		if len(x.Rhs) == 1 && len(x.Lhs) > 1 && (x.Tok == token.DEFINE || x.Tok == token.ASSIGN) {
+			if call, ok := ast.Unparen(x.Rhs[0]).(*ast.CallExpr); ok {
+				if r := rc.callAny(fr, st, call); r != nil && len(r.tuple) == len(x.Lhs) {
+					for i, l := range x.Lhs {
+						if id, ok := ast.Unparen(l).(*ast.Ident); ok {
+							bind(objOf(l), id.Name, r.tuple[i])
+						}
+					}
+					return
+				}
+			}
+		}
+		for _, l := range x.Lhs {
+			if o := objOf(l); o != nil {
+				delete(st.env, o)
+			}
+		}
+	case *ast.IncDecStmt:
+		if o := objOf(x.X); o != nil {
+			delete(st.env, o)
+		}
+	case *ast.DeclStmt:
+		gd, ok := x.Decl.(*ast.GenDecl)
+		if !ok {
+			return
+		}
+		for _, sp := range gd.Specs {
+			vs, ok := sp.(*ast.ValueSpec)
+			if !ok {
+				continue
+			}
+			for i, n := range vs.Names {
+				if len(vs.Values) == len(vs.Names) {
+					bind(fr.info.Defs[n], n.Name, rc.eval(fr, st, vs.Values[i]))
+				} else if o := fr.info.Defs[n]; o != nil {
+					delete(st.env, o)
+				}
+			}
+		}
+	}
+}
+
+// ---- conditions ----
+
+func rdNot(v int) int {
+	if v < 0 {
+		return -1
+	}
+	return 1 - v
+}
+
+// condW: value of a condition under the whole-file assumption: 1 true,
+// 0 false, -1 unknown.
+func (rc *rdCtx) condW(fr *rdFrame, st *rdState, e ast.Expr) int {
+	e = ast.Unparen(e)
+	if tv := fr.info.Types[e]; tv.Value != nil && tv.Value.Kind() == constant.Bool {
+		if constant.BoolVal(tv.Value) {
+			return 1
+		}
+		return 0
+	}
+	switch x := e.(type) {
+	case *ast.UnaryExpr:
+		if x.Op == token.NOT {
+			return rdNot(rc.condW(fr, st, x.X))
+		}
+		return -1
+	case *ast.Ident:
+		if v := rc.eval(fr, st, x); v.k == rdBool {
+			return v.tri
+		}
+		return -1
+	case *ast.CallExpr:
+		if ftv, ok := fr.info.Types[x.Fun]; ok && ftv.IsType() && len(x.Args) == 1 {
+			return rc.condW(fr, st, x.Args[0])
+		}
+		if v := rc.callW(fr, st, x); v != nil && v.k == rdBool {
+			return v.tri
+		}
+		return -1
+	}
+	be, ok := e.(*ast.BinaryExpr)
 	if !ok {
+		return -1
+	}
+	switch be.Op {
+	case token.LAND:
+		a, b := rc.condW(fr, st, be.X), rc.condW(fr, st, be.Y)
+		switch {
+		case a == 0 || b == 0:
+			return 0
+		case a == 1 && b == 1:
+			return 1
+		}
+		return -1
+	case token.LOR:
+		a, b := rc.condW(fr, st, be.X), rc.condW(fr, st, be.Y)
+		switch {
+		case a == 1 || b == 1:
+			return 1
+		case a == 0 && b == 0:
+			return 0
+		}
 		return -1
 	}
 	// struct comparisons
 	if be.Op == token.EQL || be.Op == token.NEQ {
-		tx := rc.info.Types[be.X].Type
+		tx := fr.info.Types[be.X].Type
 		if tx != nil && types.Identical(tx, rc.locT) {
-			for _, pair := range [][2]ast.Expr{{be.X, be.Y}, {be.Y, be.X}} {
-				if rc.isRecvLoc(pair[0]) && rdZeroLit(pair[1]) {
-					if be.Op == token.EQL {
-						return 1
-					}
-					return 0
-				}
-			}
-			if rc.isRecvLoc(be.X) && rc.isRecvLoc(be.Y) {
+			a, b := rc.eval(fr, st, be.X), rc.eval(fr, st, be.Y)
+			isLoc := func(v *rdV) bool { return v.k == rdLoc }
+			if isLoc(a) && isLoc(b) && !(a.zero && b.zero) || (isLoc(a) && !a.zero && rdZeroLit(be.Y)) || (isLoc(b) && !b.zero && rdZeroLit(be.X)) {
 				if be.Op == token.EQL {
 					return 1
 				}
@@ -233,8 +934,21 @@ func (rc *rdCtx) condW(st *rdState, e ast.Expr) int {
 		if tx != nil && types.Identical(tx, rc.spanT) {
 			return -1 // compares the Filename too: not decided by line/column
 		}
+		if tx != nil {
+			if b, ok := tx.Underlying().(*types.Basic); ok && b.Info()&types.IsBoolean != 0 {
+				a, c := rc.condW(fr, st, be.X), rc.condW(fr, st, be.Y)
+				if a < 0 || c < 0 {
+					return -1
+				}
+				if (a == c) == (be.Op == token.EQL) {
+					return 1
+				}
+				return 0
+			}
+		}
 	}
-	a, b := rc.evalW(st, be.X), rc.evalW(st, be.Y)
+	av, bv := rc.eval(fr, st, be.X), rc.eval(fr, st, be.Y)
+	a, b := av.iv, bv.iv
 	if !a.known || !b.known || a.wrapped || b.wrapped {
 		return -1
 	}
@@ -264,98 +978,182 @@ func (rc *rdCtx) condW(st *rdState, e ast.Expr) int {
 	return -1
 }
 
-func (rc *rdCtx) isRecvLoc(e ast.Expr) bool {
-	s, ok := ast.Unparen(e).(*ast.SelectorExpr)
-	if !ok {
-		return false
-	}
-	t := rc.info.Types[s].Type
-	ti := rc.info.Types[s.X].Type
-	return t != nil && ti != nil && types.Identical(t, rc.locT) && types.Identical(ti, rc.spanT) && rc.rootedAtRecv(s.X)
-}
-
 func rdZeroLit(e ast.Expr) bool {
 	cl, ok := ast.Unparen(e).(*ast.CompositeLit)
 	return ok && len(cl.Elts) == 0
 }
 
-// norm renders an expression without integer conversions and parentheses.
-func (rc *rdCtx) norm(e ast.Expr) string {
+func rdNegOp(op token.Token) token.Token {
+	switch op {
+	case token.EQL:
+		return token.NEQ
+	case token.NEQ:
+		return token.EQL
+	case token.LSS:
+		return token.GEQ
+	case token.LEQ:
+		return token.GTR
+	case token.GTR:
+		return token.LEQ
+	case token.GEQ:
+		return token.LSS
+	}
+	return op
+}
+
+// atomFacts: the comparisons that hold when e evaluates to taken; ok=false
+// when e (with that outcome) is not a conjunction of comparisons.
+func (rc *rdCtx) atomFacts(fr *rdFrame, st *rdState, e ast.Expr, taken bool) ([]string, bool) {
 	e = ast.Unparen(e)
 	switch x := e.(type) {
-	case *ast.CallExpr:
-		if tv, ok := rc.info.Types[x.Fun]; ok && tv.IsType() && len(x.Args) == 1 {
-			return rc.norm(x.Args[0])
+	case *ast.UnaryExpr:
+		if x.Op == token.NOT {
+			return rc.atomFacts(fr, st, x.X, !taken)
 		}
-		var as []string
-		for _, a := range x.Args {
-			as = append(as, rc.norm(a))
-		}
-		return exprStr(x.Fun) + "(" + strings.Join(as, ",") + ")"
 	case *ast.BinaryExpr:
-		return rc.norm(x.X) + x.Op.String() + rc.norm(x.Y)
-	case *ast.IndexExpr:
-		return rc.norm(x.X) + "[" + rc.norm(x.Index) + "]"
+		switch x.Op {
+		case token.LAND, token.LOR:
+			if (x.Op == token.LAND) != taken {
+				return nil, false
+			}
+			a, ok1 := rc.atomFacts(fr, st, x.X, taken)
+			b, ok2 := rc.atomFacts(fr, st, x.Y, taken)
+			if !ok1 || !ok2 {
+				return nil, false
+			}
+			return append(a, b...), true
+		case token.EQL, token.NEQ, token.LSS, token.LEQ, token.GTR, token.GEQ:
+			op := x.Op
+			if !taken {
+				op = rdNegOp(op)
+			}
+			return []string{rc.norm(fr, st, x.X) + " " + op.String() + " " + rc.norm(fr, st, x.Y)}, true
+		}
+	case *ast.CallExpr:
+		// a predicate helper that returns one expression
+		env := map[types.Object]*rdV{}
+		fn, d, ok := rc.bindCall(fr, st, x, env)
+		if !ok || len(d.fd.Body.List) != 1 {
+			return nil, false
+		}
+		ret, isRet := d.fd.Body.List[0].(*ast.ReturnStmt)
+		if !isRet || len(ret.Results) != 1 {
+			return nil, false
+		}
+		st2 := &rdState{wOK: st.wOK, env: env}
+		for k, v := range st.env {
+			if _, dup := env[k]; !dup {
+				env[k] = v
+			}
+		}
+		rc.active[fn] = true
+		defer delete(rc.active, fn)
+		return rc.atomFacts(&rdFrame{info: d.info, fd: d.fd, chain: fr.chain, depth: fr.depth + 1}, st2, ret.Results[0], taken)
 	}
-	return exprStr(e)
+	return nil, false
 }
 
-func (rc *rdCtx) atomStr(a rdAtom) string {
-	be, ok := ast.Unparen(a.e).(*ast.BinaryExpr)
+func (rc *rdCtx) atomStrs(fr *rdFrame, st *rdState, e ast.Expr, taken bool) []string {
+	if f, ok := rc.atomFacts(fr, st, e, taken); ok {
+		return f
+	}
+	if taken {
+		return []string{rc.norm(fr, st, e)}
+	}
+	return []string{"!(" + rc.norm(fr, st, e) + ")"}
+}
+
+// ---- sites ----
+
+// hasSites: the function (or a function of the module it calls) contains an
+// index / slice / strings.Repeat site.
+func (rc *rdCtx) hasSites(fn *types.Func) bool {
+	switch rc.siteMemo[fn] {
+	case 1:
+		return true
+	case 2, 3:
+		return false
+	}
+	d, ok := rc.decls[fn]
 	if !ok {
-		if a.taken {
-			return rc.norm(a.e)
-		}
-		return "!(" + rc.norm(a.e) + ")"
+		rc.siteMemo[fn] = 2
+		return false
 	}
-	op := be.Op
-	if !a.taken {
-		switch op {
-		case token.EQL:
-			op = token.NEQ
-		case token.NEQ:
-			op = token.EQL
-		case token.LSS:
-			op = token.GEQ
-		case token.LEQ:
-			op = token.GTR
-		case token.GTR:
-			op = token.LEQ
-		case token.GEQ:
-			op = token.LSS
+	rc.siteMemo[fn] = 3
+	found := false
+	ast.Inspect(d.fd.Body, func(n ast.Node) bool {
+		if found {
+			return false
 		}
+		switch x := n.(type) {
+		case *ast.FuncLit:
+			return false
+		case *ast.IndexExpr:
+			if t := d.info.Types[x.X].Type; t != nil {
+				if _, isMap := t.Underlying().(*types.Map); !isMap {
+					if _, isSig := t.Underlying().(*types.Signature); !isSig {
+						found = true
+					}
+				}
+			}
+		case *ast.SliceExpr:
+			found = true
+		case *ast.CallExpr:
+			if f := CalleeOf(d.info, x); f != nil {
+				if f.Pkg() != nil && f.Pkg().Path() == "strings" && f.Name() == "Repeat" {
+					found = true
+				} else if rc.hasSites(f) {
+					found = true
+				}
+			}
+		}
+		return true
+	})
+	if found {
+		rc.siteMemo[fn] = 1
+	} else {
+		rc.siteMemo[fn] = 2
 	}
-	return rc.norm(be.X) + " " + op.String() + " " + rc.norm(be.Y)
+	return found
 }
 
-func (rc *rdCtx) visitSites(st *rdState, n ast.Node) {
+func (rc *rdCtx) visitSites(fr *rdFrame, st *rdState, n ast.Node) {
 	ast.Inspect(n, func(m ast.Node) bool {
 		var site *rdSite
+		var operand ast.Expr
 		switch x := m.(type) {
 		case *ast.FuncLit:
 			return false
 		case *ast.IndexExpr:
-			if t := rc.info.Types[x.X].Type; t != nil {
+			if t := fr.info.Types[x.X].Type; t != nil {
 				if _, isMap := t.Underlying().(*types.Map); isMap {
 					return true
 				}
-				if tv, ok := rc.info.Types[x.Index]; ok && tv.Value != nil {
+				if _, isSig := t.Underlying().(*types.Signature); isSig {
+					return true // generic instantiation
+				}
+				if tv, ok := fr.info.Types[x.Index]; ok && tv.Value != nil {
 					return true // constant index
 				}
-				site = rc.siteFor(x, "index", rc.norm(x), x.Index)
+				site = rc.siteFor(fr, st, x, "index")
+				operand = x.Index
 			}
 		case *ast.SliceExpr:
-			site = rc.siteFor(x, "slice", rc.norm(x.X)+"[…:…]", nil)
+			site = rc.siteFor(fr, st, x, "slice")
 			for _, b := range []ast.Expr{x.Low, x.High} {
 				if b != nil {
-					site.expr = b
+					operand = b
 				}
 			}
 		case *ast.CallExpr:
-			if fn := CalleeOf(rc.info, x); fn != nil && fn.Pkg() != nil && fn.Pkg().Path() == "strings" && fn.Name() == "Repeat" && len(x.Args) == 2 {
-				if tv := rc.info.Types[x.Args[1]]; tv.Value == nil {
-					site = rc.siteFor(x, "repeat", "strings.Repeat(…, "+rc.norm(x.Args[1])+")", x.Args[1])
+			fn := CalleeOf(fr.info, x)
+			if fn != nil && fn.Pkg() != nil && fn.Pkg().Path() == "strings" && fn.Name() == "Repeat" && len(x.Args) == 2 {
+				if tv := fr.info.Types[x.Args[1]]; tv.Value == nil {
+					site = rc.siteFor(fr, st, x, "repeat")
+					operand = x.Args[1]
 				}
+			} else if fn != nil && rc.hasSites(fn) {
+				rc.enterHelper(fr, st, x)
 			}
 		}
 		if site == nil {
@@ -364,7 +1162,7 @@ func (rc *rdCtx) visitSites(st *rdState, n ast.Node) {
 		site.paths++
 		cur := map[string]bool{}
 		for _, a := range st.atoms {
-			cur[rc.atomStr(a)] = true
+			cur[a] = true
 		}
 		if site.dom == nil {
 			site.dom = cur
@@ -377,19 +1175,16 @@ func (rc *rdCtx) visitSites(st *rdState, n ast.Node) {
 		}
 		if st.wOK {
 			site.wAny = true
-			if site.expr != nil {
-				v := rc.evalW(st, site.expr)
+			if operand != nil {
+				val := rc.eval(fr, st, operand)
+				v := val.iv
 				bad := v.known && (v.wrapped || v.hi < 0)
 				if bad {
-					var tr []string
-					for _, a := range st.atoms {
-						tr = append(tr, rc.atomStr(a))
-					}
 					what := "wraps below zero (uint)"
 					if site.kind == "repeat" {
 						what = "is negative"
 					}
-					site.wReach = append(site.wReach, fmt.Sprintf("%s %s for a whole-file span on path {%s}", rc.norm(site.expr), what, strings.Join(tr, "; ")))
+					site.wReach = append(site.wReach, fmt.Sprintf("%s %s for a whole-file span on path {%s}", val.txt, what, strings.Join(st.atoms, "; ")))
 				}
 			}
 		}
@@ -397,65 +1192,129 @@ func (rc *rdCtx) visitSites(st *rdState, n ast.Node) {
 	})
 }
 
-func (rc *rdCtx) siteFor(n ast.Node, kind, what string, e ast.Expr) *rdSite {
-	if s := rc.sites[n]; s != nil {
+func (rc *rdCtx) siteFor(fr *rdFrame, st *rdState, n ast.Node, kind string) *rdSite {
+	id := fmt.Sprintf("%s@%d", fr.chain, n.Pos())
+	if s := rc.sites[id]; s != nil {
 		return s
 	}
-	s := &rdSite{node: n, what: what, kind: kind, expr: e}
-	rc.sites[n] = s
+	s := &rdSite{node: n, kind: kind}
+	switch x := n.(type) {
+	case *ast.IndexExpr:
+		s.what = rc.norm(fr, st, x)
+		s.container = rc.norm(fr, st, x.X)
+		s.val, s.hasExpr = rc.eval(fr, st, x.Index), true
+	case *ast.SliceExpr:
+		s.what = rc.norm(fr, st, x.X) + "[…:…]"
+		for _, b := range []ast.Expr{x.Low, x.High} {
+			if b != nil {
+				s.val, s.hasExpr = rc.eval(fr, st, b), true
+			}
+		}
+	case *ast.CallExpr:
+		s.val, s.hasExpr = rc.eval(fr, st, x.Args[1]), true
+		s.what = "strings.Repeat(…, " + s.val.txt + ")"
+	}
+	rc.sites[id] = s
 	rc.order = append(rc.order, s)
 	return s
 }
 
-func (rc *rdCtx) run(name string) []Obligation {
-	c := rc.c
-	info := rc.info
-	returnsUnderW := 0
-	w := &Walker[*rdState]{
-		Clone: func(s *rdState) *rdState {
-			n := &rdState{atoms: append([]rdAtom(nil), s.atoms...), wOK: s.wOK, lens: map[types.Object]int64{}}
-			for k, v := range s.lens {
-				n.lens[k] = v
-			}
-			return n
-		},
-		IsPanic: func(s ast.Stmt) bool { return IsPanicCall(info, s) },
+// enterHelper walks a helper that contains sites with the caller's path facts.
+func (rc *rdCtx) enterHelper(fr *rdFrame, st *rdState, call *ast.CallExpr) {
+	st2 := rdClone(st)
+	fn, d, ok := rc.bindCall(fr, st, call, st2.env)
+	if !ok {
+		return
+	}
+	rc.active[fn] = true
+	defer delete(rc.active, fn)
+	fr2 := &rdFrame{info: d.info, fd: d.fd, chain: fmt.Sprintf("%s/%d", fr.chain, call.Pos()), depth: fr.depth + 1}
+	w := rc.walker(fr2, nil)
+	w.Run(d.fd.Body, st2)
+	if w.Overflow {
+		rc.overflow = true
+	}
+	rc.unsupp += len(w.Unsupported)
+}
+
+func (rc *rdCtx) walker(fr *rdFrame, onReturnW func()) *Walker[*rdState] {
+	return &Walker[*rdState]{
+		Clone:   rdClone,
+		IsPanic: func(s ast.Stmt) bool { return IsPanicCall(fr.info, s) },
 		OnStmt: func(st *rdState, s ast.Stmt) (*rdState, bool) {
-			rc.visitSites(st, s)
-			if as, ok := s.(*ast.AssignStmt); ok && len(as.Lhs) == 1 && len(as.Rhs) == 1 {
-				if call, ok := ast.Unparen(as.Rhs[0]).(*ast.CallExpr); ok {
-					if fn := CalleeOf(info, call); fn != nil && fn.Pkg() != nil && fn.Pkg().Path() == "strings" && fn.Name() == "Split" {
-						if id, ok := as.Lhs[0].(*ast.Ident); ok {
-							if o := info.Defs[id]; o != nil {
-								st.lens[o] = 1 // strings.Split with a non-empty separator returns >= 1 element
-							}
-						}
-					}
-				}
-			}
+			rc.visitSites(fr, st, s)
+			rc.bindStmt(fr, st, s)
 			return st, true
 		},
 		OnCond: func(st *rdState, cond ast.Expr, taken bool) (*rdState, bool) {
-			rc.visitSites(st, cond)
+			rc.visitSites(fr, st, cond)
 			if st.wOK {
-				if v := rc.condW(st, cond); v >= 0 && (v == 1) != taken {
+				if v := rc.condW(fr, st, cond); v >= 0 && (v == 1) != taken {
 					st.wOK = false
 				}
 			}
-			st.atoms = append(st.atoms, rdAtom{cond, taken})
+			st.atoms = append(st.atoms, rc.atomStrs(fr, st, cond, taken)...)
 			return st, true
 		},
 		OnCase: func(st *rdState, sw *ast.SwitchStmt, vals, others []ast.Expr) (*rdState, bool) {
+			// a switch over an integer computed from the span: which clauses can the
+			// whole-file position take?
+			tag := rc.eval(fr, st, sw.Tag)
+			if tag.k != rdInt || len(tag.fields) == 0 {
+				return st, true
+			}
+			eq := func(e ast.Expr) int {
+				v := rc.eval(fr, st, e)
+				a, b := tag.iv, v.iv
+				if !a.known || !b.known || a.wrapped || b.wrapped {
+					return -1
+				}
+				if a.lo == a.hi && b.lo == b.hi && a.lo == b.lo {
+					return 1
+				}
+				if a.hi < b.lo || b.hi < a.lo {
+					return 0
+				}
+				return -1
+			}
+			if vals == nil {
+				for _, o := range others {
+					if st.wOK && eq(o) == 1 {
+						st.wOK = false
+					}
+					st.atoms = append(st.atoms, tag.txt+" != "+rc.norm(fr, st, o))
+				}
+				return st, true
+			}
+			feasible := false
+			for _, v := range vals {
+				if eq(v) != 0 {
+					feasible = true
+				}
+			}
+			if !feasible {
+				st.wOK = false
+			}
+			if len(vals) == 1 {
+				st.atoms = append(st.atoms, tag.txt+" == "+rc.norm(fr, st, vals[0]))
+			}
 			return st, true
 		},
 		Exit: func(st *rdState, o outcome) {
-			if st.wOK && o.kind == cReturn {
-				returnsUnderW++
+			if onReturnW != nil && st.wOK && o.kind == cReturn {
+				onReturnW()
 			}
 		},
 		MaxPaths: 20000,
 	}
-	w.Run(rc.fd.Body, &rdState{wOK: true, lens: map[types.Object]int64{}})
+}
+
+func (rc *rdCtx) run(name string) []Obligation {
+	c := rc.c
+	returnsUnderW := 0
+	top := &rdFrame{info: rc.info, fd: rc.fd}
+	w := rc.walker(top, func() { returnsUnderW++ })
+	w.Run(rc.fd.Body, &rdState{wOK: true, env: map[types.Object]*rdV{}})
 	var obs []Obligation
 	// (a)
 	ob := Obligation{Key: name + "|whole-file position renders", Pos: c.Pos(rc.fd.Pos()), Nontrivial: true}
@@ -464,7 +1323,7 @@ func (rc *rdCtx) run(name string) []Obligation {
 		wit = append(wit, s.wReach...)
 	}
 	switch {
-	case w.Overflow || len(w.Unsupported) > 0:
+	case w.Overflow || len(w.Unsupported) > 0 || rc.overflow || rc.unsupp > 0:
 		ob.Status, ob.Detail = Undecided, "renderer not fully explored (path cap / unsupported control flow)"
 	case len(wit) > 0:
 		ob.Status = Violated
@@ -523,45 +1382,28 @@ func (rc *rdCtx) hazards(s *rdSite, dom []string) []string {
 		return false
 	}
 	var out []string
-	if s.expr == nil {
+	if !s.hasExpr || s.val == nil {
 		return []string{"slice bounds not analysed"}
 	}
-	// decompose E = F [- k] [+ k]
-	var subs []*ast.BinaryExpr
-	ast.Inspect(s.expr, func(n ast.Node) bool {
-		if be, ok := n.(*ast.BinaryExpr); ok && be.Op == token.SUB {
-			subs = append(subs, be)
-		}
-		return true
-	})
+	subs := s.val.subs
 	switch s.kind {
 	case "index", "slice":
 		field := ""
-		ast.Inspect(s.expr, func(n ast.Node) bool {
-			if e, ok := n.(ast.Expr); ok {
-				if _, ok := rc.spanField(e); ok && field == "" {
-					field = rc.norm(e)
-				}
-			}
-			return true
-		})
-		container := ""
-		if ix, ok := s.node.(*ast.IndexExpr); ok {
-			container = rc.norm(ix.X)
+		if len(s.val.fields) > 0 {
+			field = s.val.fields[0]
 		}
+		container := s.container
 		k := int64(0)
-		for _, be := range subs {
-			if tv := rc.info.Types[be.Y]; tv.Value != nil {
-				if n, ok := constant.Int64Val(tv.Value); ok {
-					k = n
-				}
+		for _, sb := range subs {
+			if sb.yConst {
+				k = sb.yVal
 			}
 		}
 		if field == "" {
-			return []string{"index " + rc.norm(s.expr) + " not derived from a span field"}
+			return []string{"index " + s.val.txt + " not derived from a span field"}
 		}
 		if k > 0 {
-			okLow := false
+			okLow := s.val.clamp0
 			for c := k - 1; c < k+3; c++ {
 				if has(fmt.Sprintf("%s > %d", field, c)) {
 					okLow = true
@@ -580,19 +1422,27 @@ func (rc *rdCtx) hazards(s *rdSite, dom []string) []string {
 			}
 		}
 		okHigh := has(field+" < len("+container+")") || (k >= 1 && has(field+" <= len("+container+")"))
+		for _, c := range s.val.capTxt {
+			if c == "len("+container+")-1" {
+				okHigh = true
+			}
+		}
 		if !okHigh {
-			out = append(out, fmt.Sprintf("%s beyond the number of lines (index %s >= len(%s))", field, rc.norm(s.expr), container))
+			out = append(out, fmt.Sprintf("%s beyond the number of lines (index %s >= len(%s))", field, s.val.txt, container))
 		}
 	case "repeat":
-		for _, be := range subs {
-			if tv := rc.info.Types[be.Y]; tv.Value != nil {
+		if s.val.clamp0 {
+			return out
+		}
+		for _, sb := range subs {
+			if sb.yConst {
 				continue
 			}
-			a, b := rc.norm(be.X), rc.norm(be.Y)
+			a, b := sb.x, sb.y
 			if has(a+" >= "+b, a+" > "+b, b+" <= "+a, b+" < "+a, a+" == "+b, b+" == "+a) {
 				continue
 			}
-			out = append(out, fmt.Sprintf("%s < %s makes the count %s negative (uint wrap, then strings.Repeat panics)", a, b, rc.norm(s.expr)))
+			out = append(out, fmt.Sprintf("%s < %s makes the count %s negative (uint wrap, then strings.Repeat panics)", a, b, s.val.txt))
 		}
 	}
 	return out
